@@ -35,3 +35,62 @@ def unhex(h):
 @matcher("exact-case")
 def _exact(e, c):
     return c.fn == e.get("fn") and c.args == e.get("args")
+
+
+
+
+def _parse(s):
+    toks = s.replace("(", " ( ").replace(")", " ) ").split()
+    pos = [0]
+
+    def rec():
+        t = toks[pos[0]]
+        pos[0] += 1
+        if t == "(":
+            items = []
+            while toks[pos[0]] != ")":
+                items.append(rec())
+            pos[0] += 1
+            return items
+        return t
+    return rec()
+
+
+def _show(x):
+    if isinstance(x, list):
+        return "(" + " ".join(_show(i) for i in x) + ")"
+    return x
+
+
+def _empty_enc(x):
+    """values whose proto encoding is empty even when a zero value is wanted"""
+    if x == "nil":
+        return True
+    if isinstance(x, list):
+        if x == ["l"]:
+            return True
+        if x and x[0] == "s":
+            return all(_empty_enc(i) for i in x[1:])
+        if len(x) == 2 and x[0] == "p":
+            return isinstance(x[1], list) and x[1][:1] == ["s"] and _empty_enc(x[1]) or (isinstance(x[1], list) and x[1][:1] == ["p"] and _empty_enc(x[1]))
+    return False
+
+
+def _erase(x):
+    if isinstance(x, list):
+        x = [_erase(i) for i in x]
+        if len(x) == 2 and x[0] == "p" and _empty_enc(x):
+            return "nil"
+    return x
+
+
+@matcher("proto.ptr-to-empty-message")
+def _ptr_empty(e, c):
+    """p.rt: the only difference is that non-nil pointers to messages whose encoding is empty (struct{}, or a struct whose
+    fields are all nil pointers, empty repeated fields or such structs) came back nil."""
+    if c.fn != "p.rt" or c.impl == c.oracle or c.impl.startswith("err") or c.impl == "PANIC":
+        return False
+    try:
+        return _show(_erase(_parse(c.oracle))) == _show(_parse(c.impl)) and "(p " in c.oracle
+    except Exception:
+        return False
